@@ -40,3 +40,16 @@ W void w_filter_obj(unsigned star, const char* key, FOut* o) {
   o->self = bits(root); o->key = bits(root[key]); o->idx = bits(root[0UL]);
   o->key_key = 0; o->idx_key = 0; o->idx_idx = bits(root[0UL][0UL]);
 }
+// ---- ObjectData key lookup (C01/C14): one member whose key has MLEN symbolic bytes; lookup with a sized key of LLEN bytes
+W unsigned w_obj_find(const char* mk, size_t mlen, const char* lk, size_t llen, const char* zk) {
+  arena.reset(); ResourceManager rm(&arena);
+  VariantData v; ObjectData& ob = v.toObject();
+  StringNode* k = rm.saveString(adaptString(mk, mlen));
+  VariantData* m = ob.addMember(k, &rm); if (!m) return 99; m->setBoolean(true);
+  unsigned r = 0;
+  if (ob.getMember(adaptString(lk, llen), &rm) == m) r |= 1;                 // sized lookup
+  if (zk && ob.getMember(adaptString(zk), &rm) == m) r |= 2;                 // zero-terminated lookup
+  JsonObjectConst o(&ob, &rm);
+  if (!o[JsonString(lk, llen)].isNull()) r |= 4;                            // public API lookup
+  return r;
+}
